@@ -1,2 +1,8 @@
 import SpdxVerif.Props.C03
+#print axioms Spdx.C03.g_parseTokens_never_panics
+#print axioms Spdx.C03.g_parse_never_panics
+#print axioms Spdx.C03.g_helpers_never_panic
 #print axioms Spdx.C03.api_total
+#print axioms Spdx.C03.index_sites_accounted
+#print axioms Spdx.C03.slice_sites_accounted
+#print axioms Spdx.C03.no_type_assertions_or_divisions
